@@ -1,9 +1,10 @@
 #!/bin/bash
 # Builds the framework from files on disk only (offline).
 set -eu
-cd /verif
+V="${NXV_DIR:-/verif}"
+cd "$V"
 export CARGO_NET_OFFLINE=true
 mkdir -p target evidence replays
 RUSTFLAGS="--cfg nexosim_verif --cfg nexosim_verif_shuttle --cfg async_event_loom" \
-  cargo build --release --offline --target-dir /verif/target/e1
+  cargo build --release --offline --target-dir $V/target/e1
 echo "setup ok"
